@@ -833,14 +833,18 @@ class Network:
         )
         self.peer_connections.append(connection)
 
-        await connection.connect()
-        await connection.send_message(
-            PeerInit.Request(
-                self._settings.credentials.username,
-                typ,
-                ticket
+        try:
+            await connection.connect()
+            await connection.send_message(
+                PeerInit.Request(
+                    self._settings.credentials.username,
+                    typ,
+                    ticket
+                )
             )
-        )
+        except asyncio.CancelledError:
+            await connection.disconnect(CloseReason.REQUESTED)
+            raise
 
         self._finalize_peer_connection(connection)
 
